@@ -26,7 +26,7 @@ CHECKS = {
     },
     "C03": {
         "scenarios": [{"name": "admission"}, {"name": "bank"}, {"name": "general", "tier": "thorough"}],
-        "accept": ["batch:", "nonneg:", "history-replay:balances-differ", "transfer:", "bank:refund"],
+        "accept": ["batch:", "nonneg:", "history-replay:balances-differ", "transfer:", "bank:refund", "liveness:uncaught"],
         "technique": "Lean: balance-table invariant lifted through the whole block transaction and every chain; rejected batch = no state change; precheck_sound: if the cumulative in-memory pass accepts a batch, recordBatch never meets an insufficient balance (exact point-wise effect of every write on the input address, by induction over the batch, PEG requests deferred); accepted batch passed the funds check. Tie: bank-era chains with requests that are rejected when they execute; applyTransactionBatch (hook) on random 1-4 transaction batches and on change-output batches (spends relying on an output back to the input address, at / below / above what is left) vs the model and the cumulative funds rule; transfers whose outputs wrap uint64; lock-step chains; conservation monitor on executed transfers",
         "assumptions": ["per-asset column sums stay below 2^63 (no check in the code; SQLite would switch to REAL)"],
         "design_ref": "DESIGN.md §7 C03",
